@@ -92,7 +92,8 @@ def driver_failed(name, rc, log):
     repo = os.path.realpath(os.environ.get('VERIF_REPO', '/repo'))
     files = [l.strip() for l in log.splitlines() if l.strip().startswith('File "')]
     last_exc = [l for l in log.splitlines() if l and not l.startswith((' ', 'Traceback', 'During', 'The above'))]
-    if rc not in (0, 'timeout') and files:
+    timed = bool(last_exc) and 'Timeout' in last_exc[-1].split(':')[0]     # a wait that ran out: load, not a verdict
+    if rc not in (0, 'timeout') and files and not timed:
         inner = files[-1].split('"')[1]
         if os.path.realpath(inner).startswith(os.path.join(repo, 'billiard') + os.sep):
             raise DriverCrash('%s driver: a call that works on the unchanged tree raised inside billiard: %s (%s)'
